@@ -17,7 +17,8 @@ func New() *ZipTree {
 
 // Insert is the original zip tree insert algorithm from https://arxiv.org/pdf/1806.06726.
 func (t *ZipTree) insert(node *Node) error {
-	node.rank = verifRank(rand.Uint32())
+	node.rank = rand.Uint32()
+	node.rank = verifRank(node.rank)
 	key := node.Key
 	var prev *Node
 	cur := t.root
